@@ -179,6 +179,10 @@ def run_table(item):
         # not reproducible by single calls in a fresh process: is the function history-dependent? (two calls in one process)
         for xx, v, w in bad[:6]:
             for other in (xx + 3e-5, xx - 3e-5, -xx):
+                # a fresh interpreter for every attempt: earlier calls must not have been seen by the function
+                if H.Replay._inst is not None:
+                    H.Replay._inst.p.kill()
+                    H.Replay._inst = None
                 r = H.real_driver("cprnl_sequence", [other, xx])
                 if r[0] == "ret" and r[1][1] != w and not (abs(abs(xx) - 87) <= 1e-9 and r[1][1] in (1, 2)):
                     item.violations.append(H.Violation(item.name, "table-sequence", {"calls": [other, xx]},
